@@ -281,8 +281,9 @@ def run_batch(exe, cases, in_kindmap=None, out_kindmap=None, timeout=900, shards
     shards = max(1, min(shards, len(cases)))
     parts = [cases[i::shards] for i in range(shards)]
     def one(part):
-        e = dict(os.environ); e['ASAN_OPTIONS'] = 'detect_leaks=0:abort_on_error=0:exitcode=99:detect_stack_use_after_return=1'
-        e['UBSAN_OPTIONS'] = 'print_stacktrace=1:halt_on_error=1:exitcode=98'
+        e = dict(os.environ); sym = '1' if os.environ.get('VERIF_SYMBOLIZE') == '1' else '0'   # the symbolizer costs seconds per crash
+        e['ASAN_OPTIONS'] = 'detect_leaks=0:abort_on_error=0:exitcode=99:detect_stack_use_after_return=1:symbolize=' + sym
+        e['UBSAN_OPTIONS'] = 'print_stacktrace=%s:halt_on_error=1:exitcode=98:symbolize=%s' % (sym, sym)
         if env: e.update(env)
         rc, out, err = sh([exe], inp=render_cases(part, in_kindmap), timeout=timeout, env=e)
         return parse_outputs(out, out_kindmap), err
@@ -460,6 +461,7 @@ def run_check(chk, argv):
     # 4. cases
     rng = random.Random(seed * 1000003 + (7 if tier == 'thorough' else 0))
     if a.replay:
+        os.environ['VERIF_SYMBOLIZE'] = '1'
         evs = []
         for line in open(a.replay):
             line = line.rstrip('\n')
